@@ -1,4 +1,5 @@
 import SdJwt.Lemmas.Strip
+import SdJwt.Lemmas.RestoreAll
 /-!
 # C01 — issuance round trip returns exactly the original claims and their paths
 
@@ -12,7 +13,7 @@ T-issue (the issuer's payload is `T.payload` and its disclosures are `T.discs`),
 restorer turns `T.payload` plus the disclosures with digests in `S` into `T.hview S`) and the
 stripping law below. See DESIGN.md §4.
 -/
-open Impl Spec
+open Impl Spec Assoc
 
 /-- Stripping the bookkeeping from what the holder has restored gives exactly the claims with
 the undisclosed marked nodes absent — for every conformant tree and every set of disclosures. -/
@@ -33,3 +34,31 @@ example :
                        (.clear (.leaf (.str "y")) .nil))) .nil)) (some ["g1"])
     T.plain = .obj [("a", .num 1 0), ("n", .arr [.obj [("k", .null)], .str "y"])] := by
   rfl
+
+/-- **Holder side of the round trip (T-restore).** For every conformant marked tree `T` — i.e.
+every claims tree `C = T.plain` with every marking — and the list of all its disclosures in ANY
+order: if the holder accepts, it returns exactly the original claims, no `_sd`, no placeholder. -/
+theorem C01_restore_all (env : Env) (T : MJ) (strs : List String) (inv : TreeInv T)
+    (hacc : ∀ s ∈ strs, ∀ d, fromBase64 env s = .ok d → DOk T d) (c : J) (ps : List PathEntry)
+    (h : restoreAll env T.payload strs = .ok (c, ps))
+    (hall : ∀ g ∈ T.allMarks, ∃ s ∈ strs, env.hash s = g) :
+    removeAll c = T.plain := by
+  rcases restoreAll_sound env T strs inv hacc with ⟨e, he⟩ | ⟨c', ps', h', hp⟩
+  · rw [he] at h; cases h
+  · rw [h'] at h; cases h
+    rw [hp]
+    apply MJ.project_congr
+    intro g hg
+    obtain ⟨s, hs, e⟩ := hall g hg
+    show (strs.any fun s => decide (env.hash s = g)) = true
+    simp only [List.any_eq_true, decide_eq_true_eq]
+    exact ⟨s, hs, e⟩
+
+/-- one walk of `restore_disclosure` over the payload with the disclosure of a visible marked
+node puts exactly that node back, in place, and reports exactly its JSON pointer; with any other
+acceptable disclosure it changes nothing and reports nothing (the step of T-restore) -/
+theorem C01_walk (d : Disc) (T : MJ) (p : String) (wf : T.WF) (nd : T.vdigests.Nodup)
+    (hs : d.digest ∉ T.stale) (hm : Match d T.topDiscs) :
+    restoreOne d p T.payload =
+      .ok ((T.revealTop d.digest).payload, decide (d.digest ∈ T.topMarks), T.tpaths d.digest p) :=
+  MJ.step d T p wf nd hs hm
